@@ -7,8 +7,11 @@
     from the fresh application without running a block;  the modules' query answers on both chains.
     A case can also carry malformed documents with the real ValidateGenesis verdict.
 
-    Diffs are (case, step, code); [step] names the module (0 coinswap, 1 erc20, 2 csr, 3 inflation,
-    4 epochs, 5 govshuttle, 6 onboarding) or, for query codes, the field of [answers] (in order).
+    Diffs are (case, step, code); [step] is the index of the last operation of the history (export and
+    import happen after it).  The codes below are bases: the reported code is base*10 + module
+    (0 coinswap, 1 erc20, 2 csr, 3 inflation, 4 epochs, 5 govshuttle, 6 onboarding) for document codes
+    and base*100 + field of [answers] (in order, 0..20) for query codes (4, 7, 14); codes 2, 5, 6, 11 are
+    reported as base*10.
 
     monitors on IMPLEMENTATION observations (the property's own predicates)
       10  a module's ValidateGenesis rejects the document the module exported
@@ -51,7 +54,8 @@ Record gen_case := mkCase {
   k_q1 : answers;
   k_q2 : answers;
   k_prov2 : Z;                  (* EpochMintProvision of the re-imported chain *)
-  k_bad : list bad_doc
+  k_bad : list bad_doc;
+  k_last : Z                    (* index of the last operation of the history (-1: none) *)
 }.
 
 (* monomorphic constructors for the generated case files *)
@@ -105,89 +109,90 @@ Definition ep_gen_eqb (a b : list epoch) : bool :=
   list_eqb epoch_eqb (map mask_epoch a) (map mask_epoch b).
 
 (* per module: equal modulo the exemption *)
-Definition gen_diffs (c code : Z) (a b : genesis) : list diff :=
-  report (cs_gen_eqb (g_cs a) (g_cs b)) c 0 code ++
-  report (erc_gen_eqb (g_erc a) (g_erc b)) c 1 code ++
-  report (csr_gen_eqb (g_csr a) (g_csr b)) c 2 code ++
-  report (inf_gen_eqb (g_inf a) (g_inf b)) c 3 code ++
-  report (ep_gen_eqb (g_ep a) (g_ep b)) c 4 code ++
-  report (optz_eqb (g_gs a) (g_gs b)) c 5 code ++
-  report (onb_eqb (g_onb a) (g_onb b)) c 6 code.
+Definition gen_diffs (c st code : Z) (a b : genesis) : list diff :=
+  report (cs_gen_eqb (g_cs a) (g_cs b)) c st (code * 10 + 0) ++
+  report (erc_gen_eqb (g_erc a) (g_erc b)) c st (code * 10 + 1) ++
+  report (csr_gen_eqb (g_csr a) (g_csr b)) c st (code * 10 + 2) ++
+  report (inf_gen_eqb (g_inf a) (g_inf b)) c st (code * 10 + 3) ++
+  report (ep_gen_eqb (g_ep a) (g_ep b)) c st (code * 10 + 4) ++
+  report (optz_eqb (g_gs a) (g_gs b)) c st (code * 10 + 5) ++
+  report (onb_eqb (g_onb a) (g_onb b)) c st (code * 10 + 6).
 
 Definition optpool_eqb := opt_eqb gpool_eqb.
 Definition optpair_eqb (a b : option TokenPairs.pair) : bool := beq a b.
 Definition optcsr_eqb := opt_eqb Csr.csr_eqb.
 Definition optncsr_eqb := opt_eqb ncsr_eqb.
 
-Definition ans_diffs (c code : Z) (a b : answers) : list diff :=
-  report (same_set gpool_eqb (a_pools a) (a_pools b)) c 0 code ++
-  report (list_eqb optpool_eqb (a_pool_by_lpt a) (a_pool_by_lpt b)) c 1 code ++
-  report (cs_eqb (a_cs_params a) (a_cs_params b)) c 2 code ++
-  report (same_set beq (a_pairs a) (a_pairs b)) c 3 code ++
-  report (list_eqb optpair_eqb (a_pair_by_tok a) (a_pair_by_tok b)) c 4 code ++
-  report (list_eqb optpair_eqb (a_pair_by_id a) (a_pair_by_id b)) c 5 code ++
-  report (erc_eqb (a_erc_params a) (a_erc_params b)) c 6 code ++
-  report (same_set ncsr_eqb (a_csrs a) (a_csrs b)) c 7 code ++
-  report (list_eqb optcsr_eqb (a_csr_by_nft a) (a_csr_by_nft b)) c 8 code ++
-  report (list_eqb optncsr_eqb (a_csr_by_contract a) (a_csr_by_contract b)) c 9 code ++
-  report (optz_eqb (a_turnstile a) (a_turnstile b)) c 10 code ++
-  report (csr_eqb (a_csr_params a) (a_csr_params b)) c 11 code ++
-  report (optz_eqb (a_port a) (a_port b)) c 12 code ++
-  report (list_eqb epoch_eqb (a_epochs a) (a_epochs b)) c 13 code ++
-  report (list_eqb optz_eqb (a_current a) (a_current b)) c 14 code ++
-  report (a_period a =? a_period b) c 15 code ++
-  report (a_skipped a =? a_skipped b) c 16 code ++
-  report (a_epp a =? a_epp b) c 17 code ++
-  report (a_ident a =? a_ident b) c 18 code ++
-  report (inf_eqb (a_inf_params a) (a_inf_params b)) c 19 code ++
-  report (onb_eqb (a_onb_params a) (a_onb_params b)) c 20 code.
+Definition ans_diffs (c st code : Z) (a b : answers) : list diff :=
+  report (same_set gpool_eqb (a_pools a) (a_pools b)) c st (code * 100 + 0) ++
+  report (list_eqb optpool_eqb (a_pool_by_lpt a) (a_pool_by_lpt b)) c st (code * 100 + 1) ++
+  report (cs_eqb (a_cs_params a) (a_cs_params b)) c st (code * 100 + 2) ++
+  report (same_set beq (a_pairs a) (a_pairs b)) c st (code * 100 + 3) ++
+  report (list_eqb optpair_eqb (a_pair_by_tok a) (a_pair_by_tok b)) c st (code * 100 + 4) ++
+  report (list_eqb optpair_eqb (a_pair_by_id a) (a_pair_by_id b)) c st (code * 100 + 5) ++
+  report (erc_eqb (a_erc_params a) (a_erc_params b)) c st (code * 100 + 6) ++
+  report (same_set ncsr_eqb (a_csrs a) (a_csrs b)) c st (code * 100 + 7) ++
+  report (list_eqb optcsr_eqb (a_csr_by_nft a) (a_csr_by_nft b)) c st (code * 100 + 8) ++
+  report (list_eqb optncsr_eqb (a_csr_by_contract a) (a_csr_by_contract b)) c st (code * 100 + 9) ++
+  report (optz_eqb (a_turnstile a) (a_turnstile b)) c st (code * 100 + 10) ++
+  report (csr_eqb (a_csr_params a) (a_csr_params b)) c st (code * 100 + 11) ++
+  report (optz_eqb (a_port a) (a_port b)) c st (code * 100 + 12) ++
+  report (list_eqb epoch_eqb (a_epochs a) (a_epochs b)) c st (code * 100 + 13) ++
+  report (list_eqb optz_eqb (a_current a) (a_current b)) c st (code * 100 + 14) ++
+  report (a_period a =? a_period b) c st (code * 100 + 15) ++
+  report (a_skipped a =? a_skipped b) c st (code * 100 + 16) ++
+  report (a_epp a =? a_epp b) c st (code * 100 + 17) ++
+  report (a_ident a =? a_ident b) c st (code * 100 + 18) ++
+  report (inf_eqb (a_inf_params a) (a_inf_params b)) c st (code * 100 + 19) ++
+  report (onb_eqb (a_onb_params a) (a_onb_params b)) c st (code * 100 + 20).
 
 (* the seven model verdicts *)
 Definition verdicts (g : genesis) : list bool :=
   [validate_cs (g_cs g); validate_erc (g_erc g); validate_csr (g_csr g); validate_inf (g_inf g);
    validate_ep (g_ep g); validate_gs (g_gs g); validate_onb (g_onb g)].
 
-Fixpoint flags_diffs (c i code : Z) (want : list bool) (l : list bool) : list diff :=
+Fixpoint flags_diffs (c st i code : Z) (want : list bool) (l : list bool) : list diff :=
   match want, l with
-  | w :: wr, x :: r => report (Bool.eqb w x) c i code ++ flags_diffs c (i + 1) code wr r
+  | w :: wr, x :: r => report (Bool.eqb w x) c st (code * 10 + i) ++ flags_diffs c st (i + 1) code wr r
   | [], [] => []
-  | _, _ => [(c, i, code)]
+  | _, _ => [(c, st, code * 10 + i)]
   end.
 
-Definition bad_diffs (c : Z) (i : Z) (d : bad_doc) : list diff :=
+Definition bad_diffs (c : Z) (st : Z) (d : bad_doc) : list diff :=
   match d with
-  | BadCs g v => report (Bool.eqb (validate_cs g) v) c i 5
-  | BadErc g v => report (Bool.eqb (validate_erc g) v) c i 5
-  | BadCsr g v => report (Bool.eqb (validate_csr g) v) c i 5
-  | BadInf g v => report (Bool.eqb (validate_inf g) v) c i 5
-  | BadEp g v => report (Bool.eqb (validate_ep g) v) c i 5
-  | BadOnb g v => report (Bool.eqb (validate_onb g) v) c i 5
+  | BadCs g v => report (Bool.eqb (validate_cs g) v) c st 50
+  | BadErc g v => report (Bool.eqb (validate_erc g) v) c st 50
+  | BadCsr g v => report (Bool.eqb (validate_csr g) v) c st 50
+  | BadInf g v => report (Bool.eqb (validate_inf g) v) c st 50
+  | BadEp g v => report (Bool.eqb (validate_ep g) v) c st 50
+  | BadOnb g v => report (Bool.eqb (validate_onb g) v) c st 50
   end.
-Fixpoint bads_diffs (c i : Z) (l : list bad_doc) : list diff :=
-  match l with [] => [] | d :: r => bad_diffs c i d ++ bads_diffs c (i + 1) r end.
+Fixpoint bads_diffs (c st : Z) (l : list bad_doc) : list diff :=
+  match l with [] => [] | d :: r => bad_diffs c st d ++ bads_diffs c st r end.
 
 Definition seven_true : list bool := [true; true; true; true; true; true; true].
 
 Definition check_case (c : Z) (k : gen_case) : list diff :=
+  let st := k_last k in
   (* monitors *)
-  flags_diffs c 0 10 seven_true (k_valid k) ++
-  report (k_imported k) c 0 11 ++
+  flags_diffs c st 0 10 seven_true (k_valid k) ++
+  report (k_imported k) c st 110 ++
   (if k_imported k then
-     gen_diffs c 12 (k_e1 k) (k_e2 k) ++
-     flags_diffs c 0 13 seven_true (k_raw k) ++
-     ans_diffs c 14 (k_q1 k) (k_q2 k)
+     gen_diffs c st 12 (k_e1 k) (k_e2 k) ++
+     flags_diffs c st 0 13 seven_true (k_raw k) ++
+     ans_diffs c st 14 (k_q1 k) (k_q2 k)
    else []) ++
   (* correspondence *)
-  flags_diffs c 0 1 (verdicts (k_e1 k)) (k_valid k) ++
+  flags_diffs c st 0 1 (verdicts (k_e1 k)) (k_valid k) ++
   match import (k_ctx k) (k_e1 k) with
-  | None => report (negb (k_imported k)) c 0 2
+  | None => report (negb (k_imported k)) c st 20
   | Some s' =>
-      report (k_imported k) c 0 2 ++
+      report (k_imported k) c st 20 ++
       (if k_imported k then
-         gen_diffs c 3 (export s') (k_e2 k) ++
-         ans_diffs c 4 (answer (k_probes k) s') (k_q2 k) ++
-         report (is_prov (s_inf s') =? k_prov2 k) c 3 6 ++
-         ans_diffs c 7 (answer (k_probes k) s') (k_q1 k)
+         gen_diffs c st 3 (export s') (k_e2 k) ++
+         ans_diffs c st 4 (answer (k_probes k) s') (k_q2 k) ++
+         report (is_prov (s_inf s') =? k_prov2 k) c st 60 ++
+         ans_diffs c st 7 (answer (k_probes k) s') (k_q1 k)
        else [])
   end ++
-  bads_diffs c 0 (k_bad k).
+  bads_diffs c st (k_bad k).
